@@ -459,4 +459,507 @@ theorem protected_entry_constrained (id : Ident) (hu : IsUser id) (acps : List A
     · exact hcp x ((subset_iff _ _).mp h1 x (addsAttr_mem_requestedPres hm hx))
     · exact hcr x ((subset_iff _ _).mp h2 x (removesAttr_mem_requestedRem hm hx))
 
+
+/-! ## create -/
+
+/-- Unfolding of an allowed create for a user. `hwf`: an entry that has classes has the `class`
+attribute among its attribute keys (true of every `Entry`). -/
+theorem createAllow_user_unfold {id : Ident} (hu : IsUser id) (rel : List (Resolved AcpCreate))
+    (e : NewEnt) (hwf : A.Class ∈ e.attrs) (h : createAllowPerEntry id rel e = true) :
+    id.scope = .readWrite ∧ createProtectedFilterEntry id e ≠ .deny ∧
+      ∃ cls, e.classes = some cls ∧ ∃ r, r ∈ rel ∧ createProfileCovers e cls r = true := by
+  obtain ⟨u, mo, ho⟩ := hu
+  unfold createAllowPerEntry at h
+  cases hcls : e.classes with
+  | none => simp [hcls] at h
+  | some cls =>
+    simp only [hcls] at h
+    have hmq : createMessageQueue id e = .ignore := by simp [createMessageQueue, ho]
+    have hmg : createMigrationFilterEntry id e = .ignore := by simp [createMigrationFilterEntry, ho]
+    by_cases hsc : id.scope = .readWrite
+    case neg =>
+      have hd := (scope_denied_of_not_rw id.scope hsc).2.1
+      have : createFilterEntry id rel e = .deny := by simp [createFilterEntry, ho, hd]
+      simp [applyCreateAccess, hmq, hmg, this, IRes.isDeny] at h
+    case pos =>
+      have hnd : createScopeDenied id.scope.code = false := by rw [hsc]; rfl
+      by_cases hany : rel.any (createProfileCovers e cls) = true
+      · have hcf : createFilterEntry id rel e = .grant := by
+          simp [createFilterEntry, ho, hnd, hcls, hany]
+        refine ⟨hsc, ?_, cls, rfl, ?_⟩
+        · intro hp
+          simp [applyCreateAccess, hmq, hmg, hcf, hp, IRes.isDeny] at h
+        · rw [List.any_eq_true] at hany
+          exact hany
+      · have hcf : createFilterEntry id rel e = .ignore := by
+          simp [createFilterEntry, ho, hnd, hcls, hany]
+        exfalso
+        have hsub : subset e.attrs [] = false := by
+          cases hh : subset e.attrs [] with
+          | false => rfl
+          | true => exact absurd ((subset_iff _ _).mp hh _ hwf) List.not_mem_nil
+        cases hpf : createProtectedFilterEntry id e <;>
+          simp [applyCreateAccess, hmq, hmg, hcf, hpf, IRes.isDeny, IRes.isGrant, IRes.allowPres,
+            IRes.allowCls, hsub] at h
+
+/-- **Writes need matching grants (create): one single profile covers the whole entry.** If a
+user's create of an entry is allowed, the session is read-write and there is one configured
+profile whose receiver group matches the user, whose target matches the new entry, and which
+grants *every* attribute and *every* class of the entry (not a union over profiles). -/
+theorem create_single_profile (id : Ident) (hu : IsUser id) (acps : List AcpCreate) (e : NewEnt)
+    (hwf : A.Class ∈ e.attrs)
+    (h : createAllowPerEntry id (createRelatedAcp id acps) e = true) :
+    id.scope = .readWrite ∧
+    ∃ cls, e.classes = some cls ∧ ∃ p, p ∈ acps ∧ ProfileMatches id p.acp none e.fe ∧
+      (∀ a, a ∈ e.attrs → a ∈ p.attrs) ∧ (∀ c, c ∈ cls → c ∈ p.classes) := by
+  obtain ⟨hsc, _, cls, hcls, r, hr, hcov⟩ := createAllow_user_unfold hu _ e hwf h
+  refine ⟨hsc, cls, hcls, r.acp, ?_⟩
+  unfold createProfileCovers at hcov
+  simp only [Bool.and_eq_true] at hcov
+  obtain ⟨⟨⟨hrc, ht⟩, ha⟩, hc⟩ := hcov
+  have hrc' : (match r.rcond with
+      | .groupChecked => true
+      | .entryManager => entryManagerCheck id none) = true := by
+    cases hk : r.rcond with
+    | groupChecked => rfl
+    | entryManager => rw [hk] at hrc; cases hrc
+  obtain ⟨hmem, hpm⟩ := scoped_matches (prof := (·.acp)) hr none e.fe hrc' ht
+  exact ⟨hmem, hpm, (subset_iff _ _).mp ha, (subset_iff _ _).mp hc⟩
+
+/-- **No user can create an entry carrying a protected class, nor one in the builtin uuid
+range.** -/
+theorem protected_class_never_created (id : Ident) (hu : IsUser id) (acps : List AcpCreate)
+    (e : NewEnt) (hwf : A.Class ∈ e.attrs)
+    (h : createAllowPerEntry id (createRelatedAcp id acps) e = true) :
+    (∀ cls, e.classes = some cls → ∀ c, c ∈ specProtected → c ∉ cls) ∧
+    (∀ u, e.uuid = some u → uuidAnonymous < u) := by
+  obtain ⟨_, hnp, _⟩ := createAllow_user_unfold hu _ e hwf h
+  obtain ⟨u, mo, ho⟩ := hu
+  constructor
+  · intro cls hcls c hc hmem
+    apply hnp
+    have : disjoint cls createGateClasses = false :=
+      not_disjoint_of_mem hmem (spec_subset_create_gate c hc)
+    simp only [createProtectedFilterEntry, ho, hcls, this]
+    split <;> simp
+  · intro u' hu'
+    cases hlt : decide (uuidAnonymous < u') with
+    | true => exact of_decide_eq_true hlt
+    | false =>
+      exfalso
+      apply hnp
+      have hle : u' ≤ uuidAnonymous := Nat.le_of_not_lt (of_decide_eq_false hlt)
+      simp [createProtectedFilterEntry, ho, hu', createAnonCmp, hle]
+
+/-- **Read-only / sync-scoped users never create.** -/
+theorem readonly_never_creates (id : Ident) (hu : IsUser id) (hs : id.scope ≠ .readWrite)
+    (rel : List (Resolved AcpCreate)) (e : NewEnt) :
+    createAllowPerEntry id rel e = false := by
+  obtain ⟨u, mo, ho⟩ := hu
+  have hd := (scope_denied_of_not_rw id.scope hs).2.1
+  have : createFilterEntry id rel e = .deny := by simp [createFilterEntry, ho, hd]
+  unfold createAllowPerEntry
+  split
+  · rfl
+  · simp [applyCreateAccess, this, IRes.isDeny]
+
+/-- **Synchronisation identities cannot create.** -/
+theorem sync_ident_cannot_create (id : Ident) (hs : IsSynch id)
+    (rel : List (Resolved AcpCreate)) (e : NewEnt) :
+    createAllowPerEntry id rel e = false := by
+  obtain ⟨u, ho⟩ := hs
+  have : createFilterEntry id rel e = .deny := by simp [createFilterEntry, ho]
+  unfold createAllowPerEntry
+  split
+  · rfl
+  · simp [applyCreateAccess, this, IRes.isDeny]
+
+/-! ## delete -/
+
+/-- **Writes need matching grants (delete).** -/
+theorem delete_allowed_has_grant (id : Ident) (hu : IsUser id) (acps : List AcpDelete) (e : Ent)
+    (h : applyDeleteAccess id (deleteRelatedAcp id acps) e = true) :
+    id.scope = .readWrite ∧ ∃ p, p ∈ acps ∧ ProfileMatches id p.acp e.managedBy e.fe := by
+  obtain ⟨u, mo, ho⟩ := hu
+  by_cases hsc : id.scope = .readWrite
+  case neg =>
+    have hd := (scope_denied_of_not_rw id.scope hsc).2.2
+    have : deleteFilterEntry id (deleteRelatedAcp id acps) e = .deny := by
+      simp [deleteFilterEntry, ho, hd]
+    simp [applyDeleteAccess, this] at h
+  case pos =>
+    have hnd : deleteScopeDenied id.scope.code = false := by rw [hsc]; rfl
+    by_cases hany : (deleteRelatedAcp id acps).any (deleteScoped id e) = true
+    · rw [List.any_eq_true] at hany
+      obtain ⟨r, hr, hsco⟩ := hany
+      unfold deleteScoped at hsco
+      rw [Bool.and_eq_true] at hsco
+      obtain ⟨hmem, hpm⟩ := scoped_matches (prof := (·.acp)) hr e.managedBy e.fe hsco.1 hsco.2
+      exact ⟨hsc, r.acp, hmem, hpm⟩
+    · have : deleteFilterEntry id (deleteRelatedAcp id acps) e = .ignore := by
+        simp [deleteFilterEntry, ho, hnd, hany]
+      simp [applyDeleteAccess, this] at h
+
+/-- **Builtin and protected entries cannot be deleted** by anyone but the internal System role,
+whatever the profiles grant. -/
+theorem builtin_and_protected_delete_denied (id : Ident) (hns : id.origin ≠ .internal .system)
+    (rel : List (Resolved AcpDelete)) (e : Ent)
+    (hprot : e.uuid ≤ uuidAnonymous ∨
+      ∃ cs c, e.classes = some cs ∧ c ∈ cs ∧ c ∈ specProtected) :
+    applyDeleteAccess id rel e = false := by
+  have hp : deleteProtectedFilterEntry id e = .deny := by
+    cases ho : id.origin with
+    | synch u => simp [deleteProtectedFilterEntry, ho]
+    | user u mo =>
+      rcases hprot with hle | ⟨cs, c, hcs, hc1, hc2⟩
+      · simp [deleteProtectedFilterEntry, ho, deleteAnonCmp, hle]
+      · have := not_disjoint_of_mem hc1 (spec_subset_delete_gate c hc2)
+        simp only [deleteProtectedFilterEntry, ho, hcs, this]
+        split <;> simp
+    | internal r =>
+      cases r with
+      | system => exact absurd ho hns
+      | accountRequest => simp [deleteProtectedFilterEntry, ho]
+      | messageQueue => simp [deleteProtectedFilterEntry, ho]
+      | migration =>
+        rcases hprot with hle | ⟨cs, c, hcs, hc1, hc2⟩
+        · simp [deleteProtectedFilterEntry, ho, deleteAnonCmp, hle]
+        · have := not_disjoint_of_mem hc1 (spec_subset_delete_gate c hc2)
+          simp only [deleteProtectedFilterEntry, ho, hcs, this]
+          split <;> simp
+  simp [applyDeleteAccess, hp]
+
+/-- **Read-only / sync-scoped users never delete.** -/
+theorem readonly_never_deletes (id : Ident) (hu : IsUser id) (hs : id.scope ≠ .readWrite)
+    (rel : List (Resolved AcpDelete)) (e : Ent) : applyDeleteAccess id rel e = false := by
+  obtain ⟨u, mo, ho⟩ := hu
+  have hd := (scope_denied_of_not_rw id.scope hs).2.2
+  have : deleteFilterEntry id rel e = .deny := by simp [deleteFilterEntry, ho, hd]
+  simp [applyDeleteAccess, this]
+
+/-- **Synchronisation identities cannot delete.** -/
+theorem sync_ident_cannot_delete (id : Ident) (hs : IsSynch id)
+    (rel : List (Resolved AcpDelete)) (e : Ent) : applyDeleteAccess id rel e = false := by
+  obtain ⟨u, ho⟩ := hs
+  have : deleteFilterEntry id rel e = .deny := by simp [deleteFilterEntry, ho]
+  simp [applyDeleteAccess, this]
+
+
+/-! ## the operations (result observed by the caller) -/
+
+/-- A modify operation gets past the modelled checks only if there are candidates, every candidate
+is allowed, and no candidate enters or leaves the recycled / tombstone state. -/
+theorem modifyOp_proceed (id : Ident) (acps : List AcpModify) (ag : List (Nat × List Nat))
+    (cands : List Ent) (ml : List Mod) (h : modifyOp id acps ag cands ml = .proceed) :
+    cands ≠ [] ∧ ml ≠ [] ∧
+    (∀ e, e ∈ cands → modifyAllowPerEntry id (modifyRelatedAcp id acps) ag e ml = true) ∧
+    (∀ e, e ∈ cands → maskedTs e.classes = maskedTs (applyClassMods e.classes ml)) := by
+  unfold modifyOp at h
+  split at h
+  · cases h
+  · rename_i hml
+    split at h
+    · split at h <;> cases h
+    · rename_i hc
+      split at h
+      · cases h
+      · rename_i hallow
+        split at h
+        · cases h
+        · rename_i hmask
+          refine ⟨?_, ?_, ?_, ?_⟩
+          · intro hnil; rw [hnil] at hc; exact hc rfl
+          · intro hnil; rw [hnil] at hml; exact hml rfl
+          · intro e he
+            have : modifyAllowOperation id acps ag cands ml = true := by simpa using hallow
+            unfold modifyAllowOperation at this
+            exact (List.all_eq_true.mp this) e he
+          · intro e he
+            have : ¬ (maskedTs e.classes != maskedTs (applyClassMods e.classes ml)) = true := by
+              intro hne
+              exact hmask (List.any_eq_true.mpr ⟨e, he, hne⟩)
+            simpa using this
+
+/-- A delete operation proceeds only on candidates every one of which is allowed and none of
+which is a tombstone. -/
+theorem deleteOp_proceed (id : Ident) (acps : List AcpDelete) (cands : List Ent)
+    (h : deleteOp id acps cands = .proceed) :
+    cands ≠ [] ∧ (∀ e, e ∈ cands → applyDeleteAccess id (deleteRelatedAcp id acps) e = true) ∧
+      (∀ e, e ∈ cands → isTombstone e.classes = false) := by
+  unfold deleteOp at h
+  split at h
+  · cases h
+  · rename_i hallow
+    split at h
+    · cases h
+    · rename_i hc
+      split at h
+      · cases h
+      · rename_i ht
+        refine ⟨?_, ?_, ?_⟩
+        · intro hnil; rw [hnil] at hc; exact hc rfl
+        · intro e he
+          have : deleteAllowOperation id acps cands = true := by simpa using hallow
+          unfold deleteAllowOperation at this
+          exact (List.all_eq_true.mp this) e he
+        · intro e he
+          cases hh : isTombstone e.classes with
+          | false => rfl
+          | true => exact absurd (List.any_eq_true.mpr ⟨e, he, hh⟩) ht
+
+/-- A create operation proceeds only if every entry of the request is allowed. -/
+theorem createOp_proceed (id : Ident) (acps : List AcpCreate) (ents : List NewEnt)
+    (h : createOp id acps ents = .proceed) :
+    ents ≠ [] ∧ (∀ e, e ∈ ents → createAllowPerEntry id (createRelatedAcp id acps) e = true) ∧
+      (∀ e, e ∈ ents → maskedTs e.classes = false) := by
+  unfold createOp at h
+  split at h
+  · cases h
+  · rename_i hc
+    split at h
+    · cases h
+    · rename_i hallow
+      split at h
+      · cases h
+      · rename_i hm
+        refine ⟨?_, ?_, ?_⟩
+        · intro hnil; rw [hnil] at hc; exact hc rfl
+        · intro e he
+          have : createAllowOperation id acps ents = true := by simpa using hallow
+          unfold createAllowOperation at this
+          exact (List.all_eq_true.mp this) e he
+        · intro e he
+          cases hh : maskedTs e.classes with
+          | false => rfl
+          | true => exact absurd (List.any_eq_true.mpr ⟨e, he, hh⟩) hm
+
+/-- **Revive = modify removing `recycled`, plus the recycled guard.** A revive proceeds only if
+every candidate passes the access decision for the modification "remove class `recycled`" and
+at least one candidate is recycled. -/
+theorem reviveOp_proceed (id : Ident) (acps : List AcpModify) (ag : List (Nat × List Nat))
+    (cands : List Ent) (h : reviveOp id acps ag cands = .proceed) :
+    cands ≠ [] ∧
+    (∀ e, e ∈ cands → modifyAllowPerEntry id (modifyRelatedAcp id acps) ag e reviveModlist = true) ∧
+    (∃ e, e ∈ cands ∧ isRecycled e.classes = true) := by
+  unfold reviveOp at h
+  split at h
+  · split at h <;> cases h
+  · rename_i hc
+    split at h
+    · cases h
+    · rename_i hallow
+      split at h
+      · cases h
+      · rename_i hall
+        refine ⟨?_, ?_, ?_⟩
+        · intro hnil; rw [hnil] at hc; exact hc rfl
+        · intro e he
+          have : modifyAllowOperation id acps ag cands reviveModlist = true := by simpa using hallow
+          unfold modifyAllowOperation at this
+          exact (List.all_eq_true.mp this) e he
+        · have : ¬ ∀ e, e ∈ cands → (!isRecycled e.classes) = true := by
+            intro hh
+            exact hall (List.all_eq_true.mpr hh)
+          apply Classical.byContradiction
+          intro hne
+          apply this
+          intro e he
+          cases hr : isRecycled e.classes with
+          | false => rfl
+          | true => exact absurd ⟨e, he, hr⟩ hne
+
+/-- **Revive needs the grants of a modify that removes `recycled`**: for a user, a revive that
+proceeds means a read-write session and, for every candidate, matching profiles that grant
+removal of the `class` attribute and removal of the class `recycled`. -/
+theorem revive_only_recycled (id : Ident) (hu : IsUser id) (acps : List AcpModify)
+    (ag : List (Nat × List Nat)) (cands : List Ent) (h : reviveOp id acps ag cands = .proceed) :
+    id.scope = .readWrite ∧ (∃ e, e ∈ cands ∧ isRecycled e.classes = true) ∧
+    ∀ e, e ∈ cands →
+      (∃ p, p ∈ acps ∧ ProfileMatches id p.acp e.managedBy e.fe ∧ A.Class ∈ p.remAttrs) ∧
+      (∃ p, p ∈ acps ∧ ProfileMatches id p.acp e.managedBy e.fe ∧ C.Recycled ∈ p.remClasses) := by
+  obtain ⟨hne, hall, hrec⟩ := reviveOp_proceed id acps ag cands h
+  have hrec' := hrec
+  obtain ⟨e0, he0, _⟩ := hrec'
+  have hsc := (modify_allowed_has_grant id hu acps ag e0 reviveModlist (hall e0 he0)).1
+  refine ⟨hsc, hrec, ?_⟩
+  intro e he
+  obtain ⟨_, _, hrem, _, hrc⟩ := modify_allowed_has_grant id hu acps ag e reviveModlist (hall e he)
+  constructor
+  · exact hrem (.removed A.Class C.Recycled) (by simp [reviveModlist]) A.Class rfl
+  · exact hrc C.Recycled (Or.inl (by simp [reviveModlist]))
+
+/-- **Read-only identities can never create, modify, delete or revive** (and neither can a user
+whose session has the synchronise scope): none of the four operations gets past the access
+decision. -/
+theorem readonly_never_writes (id : Ident) (hu : IsUser id) (hs : id.scope ≠ .readWrite)
+    (am : List AcpModify) (ac : List AcpCreate) (ad : List AcpDelete)
+    (ag : List (Nat × List Nat)) (cands : List Ent) (ents : List NewEnt) (ml : List Mod) :
+    modifyOp id am ag cands ml ≠ .proceed ∧ createOp id ac ents ≠ .proceed ∧
+      deleteOp id ad cands ≠ .proceed ∧ reviveOp id am ag cands ≠ .proceed := by
+  refine ⟨?_, ?_, ?_, ?_⟩
+  · intro h
+    obtain ⟨hne, _, hall, _⟩ := modifyOp_proceed id am ag cands ml h
+    cases cands with
+    | nil => exact hne rfl
+    | cons e _ =>
+      have := hall e List.mem_cons_self
+      rw [readonly_never_modifies id hu hs] at this
+      cases this
+  · intro h
+    obtain ⟨hne, hall, _⟩ := createOp_proceed id ac ents h
+    cases ents with
+    | nil => exact hne rfl
+    | cons e _ =>
+      have := hall e List.mem_cons_self
+      rw [readonly_never_creates id hu hs] at this
+      cases this
+  · intro h
+    obtain ⟨hne, hall, _⟩ := deleteOp_proceed id ad cands h
+    cases cands with
+    | nil => exact hne rfl
+    | cons e _ =>
+      have := hall e List.mem_cons_self
+      rw [readonly_never_deletes id hu hs] at this
+      cases this
+  · intro h
+    obtain ⟨hne, hall, _⟩ := reviveOp_proceed id am ag cands h
+    cases cands with
+    | nil => exact hne rfl
+    | cons e _ =>
+      have := hall e List.mem_cons_self
+      rw [readonly_never_modifies id hu hs] at this
+      cases this
+
+/-- **Synchronisation identities cannot use these operations at all.** -/
+theorem sync_ident_cannot_use_ops (id : Ident) (hs : IsSynch id)
+    (am : List AcpModify) (ac : List AcpCreate) (ad : List AcpDelete)
+    (ag : List (Nat × List Nat)) (cands : List Ent) (ents : List NewEnt) (ml : List Mod) :
+    modifyOp id am ag cands ml ≠ .proceed ∧ createOp id ac ents ≠ .proceed ∧
+      deleteOp id ad cands ≠ .proceed ∧ reviveOp id am ag cands ≠ .proceed := by
+  refine ⟨?_, ?_, ?_, ?_⟩
+  · intro h
+    obtain ⟨hne, _, hall, _⟩ := modifyOp_proceed id am ag cands ml h
+    cases cands with
+    | nil => exact hne rfl
+    | cons e _ =>
+      have := hall e List.mem_cons_self
+      rw [sync_ident_cannot_modify id hs] at this
+      cases this
+  · intro h
+    obtain ⟨hne, hall, _⟩ := createOp_proceed id ac ents h
+    cases ents with
+    | nil => exact hne rfl
+    | cons e _ =>
+      have := hall e List.mem_cons_self
+      rw [sync_ident_cannot_create id hs] at this
+      cases this
+  · intro h
+    obtain ⟨hne, hall, _⟩ := deleteOp_proceed id ad cands h
+    cases cands with
+    | nil => exact hne rfl
+    | cons e _ =>
+      have := hall e List.mem_cons_self
+      rw [sync_ident_cannot_delete id hs] at this
+      cases this
+  · intro h
+    obtain ⟨hne, hall, _⟩ := reviveOp_proceed id am ag cands h
+    cases cands with
+    | nil => exact hne rfl
+    | cons e _ =>
+      have := hall e List.mem_cons_self
+      rw [sync_ident_cannot_modify id hs] at this
+      cases this
+
+/-- **A plain modify can neither revive nor recycle nor tombstone**: whoever asks (System
+included), a modify that proceeds leaves every candidate on its side of the recycled/tombstone
+boundary — removing `recycled` only takes effect through `revive`. -/
+theorem modify_keeps_lifecycle (id : Ident) (acps : List AcpModify) (ag : List (Nat × List Nat))
+    (cands : List Ent) (ml : List Mod) (h : modifyOp id acps ag cands ml = .proceed) :
+    ∀ e, e ∈ cands → maskedTs e.classes = maskedTs (applyClassMods e.classes ml) :=
+  (modifyOp_proceed id acps ag cands ml h).2.2.2
+
+
+/-! ## Non-vacuity: concrete states in which the hypotheses hold and the decisions differ -/
+namespace Example
+
+def g1 : Nat := 0x10000000000040008000000000000100
+def alice : Ident := ⟨.user 0x10000000000040008000000000000200 (some [g1]), .readWrite⟩
+def aliceRo : Ident := { alice with scope := .readOnly }
+def syncId : Ident := ⟨.synch 0x10000000000040008000000000000500, .readWrite⟩
+
+/-- grants a lot, including protected classes -/
+def acp : AcpModify :=
+  ⟨⟨.group [g1], some (.pres A.Class)⟩, [A.Description, A.Class, A.Member], [A.Class],
+   [C.PosixAccount, C.Recycled, C.System], [C.Recycled, C.System, C.Person]⟩
+
+def fe (cs : List Nat) : Filter.Entry := Entry.ofList [(A.Class, cs.map fun c => .str [c])]
+def person : Ent := ⟨0x10000000000040008000000000000300, some [C.Object, C.Person], none, none,
+  fe [C.Object, C.Person]⟩
+def recycledPerson : Ent := ⟨0x10000000000040008000000000000301,
+  some [C.Object, C.Person, C.Recycled], none, none, fe [C.Object, C.Person, C.Recycled]⟩
+def tombstone : Ent := ⟨0x10000000000040008000000000000302, some [C.Object, C.Tombstone], none,
+  none, fe [C.Object, C.Tombstone]⟩
+def builtinGroup : Ent := ⟨1, some [C.Object, C.Group], none, none, fe [C.Object, C.Group]⟩
+
+-- `modify_allowed_has_grant`: an allowed request exists (attribute and class)
+example : modifyAllowPerEntry alice (modifyRelatedAcp alice [acp]) [] person
+    [.present A.Description 0, .present A.Class C.PosixAccount] = true := by decide
+-- … and an ungranted attribute is refused
+example : modifyAllowPerEntry alice (modifyRelatedAcp alice [acp]) [] person
+    [.present A.DisplayName 0] = false := by decide
+-- `protected_class_never_added` / `…_removed_except_recycled`: granted by the profile, still refused
+example : modifyAllowPerEntry alice (modifyRelatedAcp alice [acp]) [] person
+    [.present A.Class C.System] = false := by decide
+example : modifyAllowPerEntry alice (modifyRelatedAcp alice [acp]) [] person
+    [.set A.Class [C.Object, C.Person, C.Recycled]] = false := by decide
+example : modifyAllowPerEntry alice (modifyRelatedAcp alice [acp]) [] person
+    [.removed A.Class C.Person] = true := by decide
+-- `readonly_never_writes`, `sync_ident_cannot_use_ops`: the same request with another identity
+example : modifyAllowPerEntry aliceRo (modifyRelatedAcp aliceRo [acp]) [] person
+    [.present A.Description 0] = false := by decide
+example : modifyOp syncId [acp] [] [person] [.present A.Description 0] = .accessDenied := by decide
+example : modifyOp alice [acp] [] [person] [.present A.Description 0] = .proceed := by decide
+-- `tombstone_locked`, `purge_class_denied`
+example : modifyAllowPerEntry alice (modifyRelatedAcp alice [acp]) [] tombstone
+    [.present A.Description 0] = false := by decide
+example : modifyAllowPerEntry ⟨.internal .system, .readWrite⟩ [] [] person [.purged A.Class] = false := by
+  decide
+-- `revive_only_recycled` / `modify_keeps_lifecycle`: removing `recycled` proceeds through revive
+-- only, and only on a recycled entry
+example : reviveOp alice [acp] [] [recycledPerson] = .proceed := by decide
+example : modifyOp alice [acp] [] [recycledPerson] reviveModlist = .accessDenied := by decide
+example : reviveOp alice [acp] [] [person] = .accessDenied := by decide
+-- `protected_entry_constrained`: on a builtin group only `member` is open
+example : modifyAllowPerEntry alice (modifyRelatedAcp alice [acp]) [] builtinGroup
+    [.present A.Member 0] = true := by decide
+example : modifyAllowPerEntry alice (modifyRelatedAcp alice [acp]) [] builtinGroup
+    [.present A.Description 0] = false := by decide
+
+def cAttrs : AcpCreate := ⟨⟨.group [g1], some (.pres A.Class)⟩, [A.Class, A.Name], [C.Object]⟩
+def cClasses : AcpCreate := ⟨⟨.group [g1], some (.pres A.Class)⟩, [A.Class], [C.Object, C.Person]⟩
+def cBoth : AcpCreate :=
+  ⟨⟨.group [g1], some (.pres A.Class)⟩, [A.Class, A.Name], [C.Object, C.Person, C.System]⟩
+def newPerson : NewEnt := ⟨some 0x10000000000040008000000000000600, some [C.Object, C.Person],
+  [A.Class, A.Name], fe [C.Object, C.Person]⟩
+def newSystem : NewEnt := { newPerson with classes := some [C.Object, C.System] }
+def newBuiltin : NewEnt := { newPerson with uuid := some 5 }
+
+-- `create_single_profile`: one covering profile allows; two profiles covering it only together do not
+example : createAllowPerEntry alice (createRelatedAcp alice [cBoth]) newPerson = true := by decide
+example : createAllowPerEntry alice (createRelatedAcp alice [cAttrs, cClasses]) newPerson = false := by
+  decide
+-- `protected_class_never_created`
+example : createAllowPerEntry alice (createRelatedAcp alice [cBoth]) newSystem = false := by decide
+example : createAllowPerEntry alice (createRelatedAcp alice [cBoth]) newBuiltin = false := by decide
+
+def dAcp : AcpDelete := ⟨⟨.group [g1], some (.pres A.Class)⟩⟩
+-- `delete_allowed_has_grant`, `builtin_and_protected_delete_denied`
+example : deleteOp alice [dAcp] [person] = .proceed := by decide
+example : deleteOp alice [] [person] = .accessDenied := by decide
+example : deleteOp alice [dAcp] [builtinGroup] = .accessDenied := by decide
+example : deleteOp alice [dAcp] [recycledPerson] = .accessDenied := by decide
+example : deleteOp aliceRo [dAcp] [person] = .accessDenied := by decide
+
+end Example
+
 end Kanidm.Access.Write
